@@ -54,6 +54,7 @@ func vDecryptShareT(psm *PeerSharesMessage, receiverID group.MemberIndex, key ep
 type vRun struct {
 	n, t    int
 	silent  group.MemberIndex // member that stops sending from phase 7 on (0: nobody)
+	silent2 group.MemberIndex // a second such member (0: nobody)
 	members []*vMemberRun
 }
 
@@ -90,8 +91,12 @@ func vOthers[T any](r *vRun, self group.MemberIndex, get func(*vMemberRun) T, se
 }
 
 // vExecute drives the real phase functions of every member in protocol order.
-func vExecute(n, t int, silent group.MemberIndex) *vRun {
+func vExecute(n, t int, silent group.MemberIndex, more ...group.MemberIndex) *vRun {
 	r := &vRun{n: n, t: t, silent: silent}
+	if len(more) > 0 {
+		r.silent2 = more[0]
+	}
+	silent2 := r.silent2
 	// second generator: H = h*G
 	// (a fixed h keeps the commitment equations linear for the solver; the
 	// honest-path equations hold identically in h)
@@ -123,7 +128,7 @@ func vExecute(n, t int, silent group.MemberIndex) *vRun {
 		}
 	}
 	always := func(*vMemberRun) bool { return true }
-	active := func(m *vMemberRun) bool { return m.id != silent }
+	active := func(m *vMemberRun) bool { return m.id != silent && m.id != silent2 }
 	// phase 3
 	for _, m := range r.members {
 		var err error
@@ -157,7 +162,7 @@ func vExecute(n, t int, silent group.MemberIndex) *vRun {
 	}
 	// phase 8 (a silent member's points message is missing from here on)
 	for _, m := range r.members {
-		if m.id == silent {
+		if m.id == silent || m.id == silent2 {
 			continue
 		}
 		pts := vOthers(r, m.id, func(o *vMemberRun) *MemberPublicKeySharePointsMessage { return o.points }, active)
@@ -169,7 +174,7 @@ func vExecute(n, t int, silent group.MemberIndex) *vRun {
 	}
 	// phase 9
 	for _, m := range r.members {
-		if m.id == silent {
+		if m.id == silent || m.id == silent2 {
 			continue
 		}
 		m.pjm = m.sm.InitializePointsJustification()
@@ -179,7 +184,7 @@ func vExecute(n, t int, silent group.MemberIndex) *vRun {
 	}
 	// phase 10
 	for _, m := range r.members {
-		if m.id == silent {
+		if m.id == silent || m.id == silent2 {
 			continue
 		}
 		m.rm = m.pjm.InitializeRevealing()
@@ -189,7 +194,7 @@ func vExecute(n, t int, silent group.MemberIndex) *vRun {
 	}
 	// phase 11, 12
 	for _, m := range r.members {
-		if m.id == silent {
+		if m.id == silent || m.id == silent2 {
 			continue
 		}
 		m.rcm = m.rm.InitializeReconstruction()
@@ -228,7 +233,7 @@ func vLagrangeAtZero(ids []group.MemberIndex, shares []*big.Int) *big.Int {
 func vCheck(r *vRun) {
 	var honest []*vMemberRun
 	for _, m := range r.members {
-		if m.id != r.silent {
+		if m.id != r.silent && m.id != r.silent2 {
 			honest = append(honest, m)
 		}
 	}
@@ -240,7 +245,11 @@ func vCheck(r *vRun) {
 			vAssert(len(m.result.Group.InactiveMemberIndexes()) == 0, "an honest run marked a member inactive")
 		} else {
 			ia := m.result.Group.InactiveMemberIndexes()
-			vAssert(len(ia) == 1 && ia[0] == r.silent, "the silent member, and only it, must be marked inactive")
+			if r.silent2 == 0 {
+				vAssert(len(ia) == 1 && ia[0] == r.silent, "the silent member, and only it, must be marked inactive")
+			} else {
+				vAssert(len(ia) == 2 && (ia[0] == r.silent && ia[1] == r.silent2 || ia[0] == r.silent2 && ia[1] == r.silent), "the two silent members, and only they, must be marked inactive")
+			}
 		}
 	}
 	vReach("agreed")
@@ -310,6 +319,26 @@ func VerifC02_SilentAfterSharing() {
 			// the reconstructed key is the silent member's own secret
 			z := m.rcm.reconstructedIndividualPrivateKeys[silent]
 			vAssert(z != nil && new(big.Int).Mod(z, bn256.Order).Cmp(new(big.Int).Mod(r.members[silent-1].cm.secretCoefficients[0], bn256.Order)) == 0, "reconstruction did not recover the silent member's individual private key")
+			vReach("reconstructed")
+		}
+	}
+	vCheck(r)
+}
+
+// VerifC02_TwoSilentAfterSharing: five members, threshold 2, and two of them
+// go silent after sharing, so two individual keys are reconstructed and both
+// contributions have to show up in the group key and in every public key share.
+func VerifC02_TwoSilentAfterSharing() {
+	a, b := group.MemberIndex(2), group.MemberIndex(5)
+	if vThorough() {
+		a = group.MemberIndex(vRange(1, 4))
+		b = group.MemberIndex(vRange(2, 5))
+		vAssume(a < b)
+	}
+	r := vExecute(5, 2, a, b)
+	for _, m := range r.members {
+		if m.id != a && m.id != b {
+			vAssert(len(m.rcm.reconstructedIndividualPrivateKeys) == 2, "both silent members' individual keys must be reconstructed")
 			vReach("reconstructed")
 		}
 	}
